@@ -1,6 +1,6 @@
 (* C18 driver.  Case: "h <align> <seed> <len> <keyhex>" - the six hashes on the key
    (len <= number of key bytes; spifhash_jenkins32 gets the first 4*(len/4) bytes as len/4 words).
-   Output: "S:<six reference values> M:<six model values> R:ok" - the S part is evaluated with the
+   Output: "S:<six reference values> M:<six model values or FAULT:kind> R:ok" - the S part is evaluated with the
    extracted reference definitions (HashSpec.v), the M part with the extracted model.  The
    harness prints the implementation's values in both places. *)
 let zs z = string_of_int (int_of_z z)
@@ -21,10 +21,9 @@ let run = function
     let sj = spec_jenkins pre sd in   (* jenkinsLE has the same reference as jenkins *)
     let spec = [ sj; sj; spec_jenkins32 (words_of_bytes pre32) sd;
                  spec_rotating pre sd; spec_oaat pre sd; spec_fnv pre sd ] in
-    (match List.find_opt (function Fault _ -> true | Ok _ -> false) model with
-     | Some (Fault f) -> "FAULT:" ^ fault_name f
-     | _ ->
-       "S:" ^ show6 (List.map zs spec) ^ " M:" ^
-       show6 (List.map (function Ok v -> zs v | Fault _ -> "?") model) ^ " R:ok")
+    (* a fault of the model is shown in its M slot; the line never starts with FAULT, so that a
+       crash of the implementation is always compared against the reference values (level A) *)
+    "S:" ^ show6 (List.map zs spec) ^ " M:" ^
+    show6 (List.map (function Ok v -> zs v | Fault f -> "FAULT:" ^ fault_name f) model) ^ " R:ok"
   | _ -> "DRIVER-ERROR:bad-case"
 let () = main_loop run
